@@ -3,7 +3,7 @@
 Correspondence between bermuda's accessors (periods, evaluation_dates, evaluation_date, dev_lags,
 fields, metadata, field_cell_counts, field_slice_counts, num_samples, experience_gaps,
 common_metadata, metadata_differences, is_disjoint, is_semi_regular, is_regular, period_resolution,
-eval_date_resolution) and the Lean model (drv_c13); the Lean Spec predicates and the independently
+eval_date_resolution, is_slicewise_disjoint, slice_period_rows) and the Lean model (drv_c13); the Lean Spec predicates and the independently
 written taxonomy definitions (Spec/C13.lean) are evaluated against the IMPLEMENTATION's outputs."""
 import calendar
 import datetime
@@ -191,6 +191,29 @@ def rand_metas(rng, n):
     return out
 
 
+def late_metas(rng, n):
+    """n >= 3 slices whose first-sorting ones share NOTHING except an attribute value that equals the dataclass
+    default (risk_basis "Accident"; everything else None / empty), while a slice sorting later differs in exactly
+    that attribute -- or, second flavour, shares an attribute value with only SOME of the earlier slices. The fold
+    of common_metadata has to look at every slice even after the running value became `Metadata()`."""
+    flavour = rng.choice(["default-risk-basis", "default-risk-basis", "late-only-differs", "late-none"])
+    cs = rng.sample(["US", "DE", "ES", "FR", "IT"], n - 1)
+    if flavour == "default-risk-basis":
+        early = [Metadata(country=c, **({"details": {"lob": rng.choice(["auto", "home"])}} if rng.random() < 0.3 else {}))
+                 for c in cs]
+        # make sure the early slices share no detail
+        if len({tuple(m.details.items()) for m in early}) == 1 and early[0].details:
+            early[0] = Metadata(country=cs[0])
+        late = Metadata(risk_basis=rng.choice(["Policy", "Report"]), country=rng.choice(cs + ["GB", None]))
+        return early + [late]
+    if flavour == "late-only-differs":
+        # all early slices share currency and risk basis, the last one (sorting last: risk_basis Report) does not
+        early = [Metadata(country=c, currency="USD") for c in cs]
+        return early + [Metadata(risk_basis="Report", country=cs[0], currency=rng.choice(["EUR", None, "USD"]))]
+    # risk_basis None sorts FIRST: the odd slice leads
+    return [Metadata(risk_basis=None, country=cs[0])] + [Metadata(country=c) for c in cs]
+
+
 def decorate_none(rng, metas):
     """give some (not all) slices a details / loss_details entry whose value is None (an allowed
     MetadataValue): `{key: None}` in one slice and the key ABSENT from another must not count as
@@ -211,7 +234,11 @@ def make_cells(rng):
     n_slices = rng.choice([1, 1, 2, 2, 3, 4])
     kind = rng.choice(["C", "U", "I"])
     same_layout = rng.random() < 0.6
-    metas = decorate_none(rng, rand_metas(rng, n_slices))
+    if rng.random() < 0.08:
+        n_slices = rng.choice([3, 4, 5])
+        metas = late_metas(rng, n_slices)
+    else:
+        metas = decorate_none(rng, rand_metas(rng, n_slices))
     fields_pool = rng.sample(gen.FIELDS, rng.randrange(1, 5))
     sample_mode = rng.choice(["scalar", "scalar", "samples", "samples", "mixed", "inconsistent", "size1"])
     rows = LAYOUTS[layout](rng)
@@ -335,6 +362,9 @@ def impl_dump(t, units):
     d["common_metadata"] = wrap(call(lambda: t.common_metadata), w_meta)
     d["metadata_differences"] = wrap(call(lambda: t.metadata_differences), lambda ms: [w_meta(m) for m in ms])
     d["is_disjoint"] = wrap(call(lambda: t.is_disjoint), bool)
+    d["is_slicewise_disjoint"] = wrap(call(lambda: t.is_slicewise_disjoint), bool)
+    d["slice_period_rows"] = wrap(call(lambda: list(t.slice_period_rows)), lambda rows: [
+        [w_meta(k[0]), [w_date(k[1][0]), w_date(k[1][1])], w_cells(row)] for k, row in rows])
     d["is_semi_regular"] = {u: wrap(call(lambda u=u: t.is_semi_regular(u)), bool) for u in units}
     d["is_regular"] = {u: wrap(call(lambda u=u: t.is_regular(u)), bool) for u in units}
     d["period_resolution"] = wrap(call(lambda: t.period_resolution), lambda x: None if x is None else int(x))
@@ -344,7 +374,7 @@ def impl_dump(t, units):
 
 # accessors that never raise on a valid triangle are sent to the driver unwrapped
 PLAIN = ["periods", "evaluation_dates", "fields", "metadata", "field_cell_counts", "field_slice_counts",
-         "experience_gaps", "is_disjoint"]
+         "experience_gaps", "is_disjoint", "is_slicewise_disjoint", "slice_period_rows"]
 WRAPPED = ["evaluation_date", "num_samples", "common_metadata", "metadata_differences", "period_resolution",
            "eval_date_resolution"]
 
@@ -510,7 +540,10 @@ def correspondence(ctx):
                 elif name == "num_samples" and im["err"] != "ValueError":
                     ctx.fail("num_samples with inconsistent sizes must raise ValueError", where, {"impl": im})
                 return
-            if m["ok"] != im["ok"]:
+            if name == "slice_period_rows":
+                if [[a, b, canon(r)] for a, b, r in m["ok"]] != [[a, b, canon(r)] for a, b, r in im["ok"]]:
+                    ctx.disagree(name, where, m, im)
+            elif m["ok"] != im["ok"]:
                 ctx.disagree(name, where, m, im)
 
         for name in PLAIN:
@@ -529,6 +562,19 @@ def correspondence(ctx):
                 if tv is not None and "ok" in im and im["ok"] != tv:
                     ctx.fail(f"{name}('{u}') disagrees with the documented taxonomy computed independently",
                              dict(case, accessor=name, unit=u), {"impl": im["ok"], "independent": tv})
+        if "ok" in d["is_slicewise_disjoint"]:
+            sw = d["is_slicewise_disjoint"]["ok"]
+            ctx.count(f"slicewise/{'disjoint' if sw else 'overlapping'} (whole triangle "
+                      f"{'disjoint' if d['is_disjoint'].get('ok') else 'overlapping'})")
+            if sw != tax["is_slicewise_disjoint"]:
+                ctx.fail("is_slicewise_disjoint disagrees with 'no two different periods of one slice overlap' "
+                         "computed pairwise", dict(case, accessor="is_slicewise_disjoint"),
+                         {"impl": sw, "independent": tax["is_slicewise_disjoint"]})
+            if d["is_disjoint"].get("ok") and not sw:
+                ctx.fail("is_disjoint without is_slicewise_disjoint", case)
+        if "ok" in d["slice_period_rows"]:
+            ctx.count(f"slice_period_rows/rows={min(len(d['slice_period_rows']['ok']), 8)}"
+                      f"{'+' if len(d['slice_period_rows']['ok']) > 8 else ''}")
         if "ok" in d["is_disjoint"] and d["is_disjoint"]["ok"] != tax["is_disjoint"]:
             ctx.fail("is_disjoint disagrees with 'no two different periods overlap' computed pairwise",
                      dict(case, accessor="is_disjoint"), {"impl": d["is_disjoint"]["ok"], "independent": tax["is_disjoint"]})
@@ -551,7 +597,9 @@ if __name__ == "__main__":
         rule="random triangles: 0-4 slices with arbitrary shared/unshared metadata (attributes, details, loss_details), "
              "layouts {regular, one off-grid lag, unequal period lengths, dropped periods, touching/adjacent/one-day "
              "overlap, overlapping/nested, calendar months, equal-day periods, several evaluations in one month, "
-             "day-level}, same or different layout per slice, mixed field coverage, scalar / sample / mixed / "
+             "day-level}, same or different layout per slice, 3-5-slice layouts where only a late-sorting slice differs in an "
+             "attribute the earlier ones share (incl. the default risk_basis), is_slicewise_disjoint and slice_period_rows "
+             "(model + Spec + independent taxonomy), mixed field coverage, scalar / sample / mixed / "
              "inconsistent-size / size-1 values, None-valued detail entries present in some slices only; units month, day, "
              "timedelta (+ aliases and unrecognised units); sequence stream: accessors read twice on one object, and "
              "accessors of triangles DERIVED (derive_metadata merging/splitting slices, derive_fields, select, clip, +, "
